@@ -10,6 +10,22 @@ from vlib import Broken
 INVS = "NonNegative Conservation VotesAtBoundary SupplyEqualsEquity NothingForbiddenIncluded"
 
 
+def _validate(ctx, files, what, consts, groups=4):
+    """Trace validation is single-threaded per TLC run (-workers 1): validate the shard files in `groups` parallel runs."""
+    import concurrent.futures, time
+    if sum(os.path.getsize(f) for f in files) < 60e6:
+        groups = 1
+    parts = [files[i::groups] for i in range(groups)]
+    parts = [p for p in parts if p]
+
+    def one(ip):
+        i, p = ip
+        time.sleep(0.3 * i)        # ctx.validate names its work directory by the millisecond
+        return ctx.validate("TraceLedger", "TraceLedger.cfg", p, what="%s, part %d/%d" % (what, i + 1, len(parts)), timeout=3000, consts=consts)
+    with concurrent.futures.ThreadPoolExecutor(len(parts)) as ex:
+        return all(list(ex.map(one, enumerate(parts))))
+
+
 def run(ctx, check, exhaustive, negatives, sim, sim_quick, sim_thorough, depth):
     """exhaustive: cfg name per tier; negatives: [(cfg, expected violated invariant/property names)]"""
     ctx.build()
@@ -24,19 +40,23 @@ def run(ctx, check, exhaustive, negatives, sim, sim_quick, sim_thorough, depth):
         ctx.extra.setdefault("negative_controls", []).append(dict(cfg=ncfg, violated=neg["inv"]))
         if not neg["inv"] or (expect and neg["inv"] not in expect):
             raise Broken("negative control %s: expected a violation of %s, TLC reported %s\n%s" % (ncfg, expect, neg["inv"], neg["out"][-1500:]))
-    # spec -> code: every transition of the graph on the real nodes; code -> spec: the monitor judges the log
+    # spec -> code: every transition of the graph on the real nodes (quick: a seeded sample of the tour's behaviours)
     files, summ = ctx.replay("ledger", graph=dot, shards=16, maxlen=24, name="ledger_%s_graph" % check, timeout=3000,
-                             limit=2000 if ctx.quick() else 0)   # quick: a seeded sample of the tour's behaviours
-    ok = ctx.validate("TraceLedger", "TraceLedger.cfg", files, what="state graph %s" % cfg, timeout=3000, consts=consts)
-    ctx.cov["samples"] = summ["samples"]
-    ctx.cov["exhaustive"] = not ctx.quick() or summ["behaviours"] == summ["behaviours_total"]
-    ctx.extra["graph"] = dict(cfg=cfg, nodes=summ["graph_nodes"], edges=summ["graph_edges"], behaviours=summ["behaviours"],
-                              real_blocks_mined=summ["steps"], accepted=ok, actions=summ["action_counts"])
+                             limit=3000 if ctx.quick() else 0)
     # wider universe (more accounts, amounts, kinds mixed, longer blocks): seeded simulation of the same model
     n = sim_quick if ctx.quick() else sim_thorough
     glob_ = ctx.tlc_simulate("MCLedger", "MCLedger_%s.cfg" % sim, num=n, depth=depth, prefix="led_" + check)
-    files, summ2 = ctx.replay("ledger", sim=glob_, shards=16, name="ledger_%s_sim" % check, timeout=3000)
-    ok2 = ctx.validate("TraceLedger", "TraceLedger.cfg", files, what="simulated behaviours %s" % sim, timeout=3000, consts=consts)
+    files2, summ2 = ctx.replay("ledger", sim=glob_, shards=16, name="ledger_%s_sim" % check, timeout=3000)
+    # code -> spec: the monitor judges the log
+    if ctx.quick():
+        ok = ok2 = _validate(ctx, files + files2, "state graph %s + simulated behaviours %s" % (cfg, sim), consts)
+    else:
+        ok = _validate(ctx, files, "state graph %s" % cfg, consts)
+        ok2 = _validate(ctx, files2, "simulated behaviours %s" % sim, consts)
+    ctx.cov["samples"] = summ["samples"]
+    ctx.cov["exhaustive"] = summ["behaviours"] == summ["behaviours_total"]
+    ctx.extra["graph"] = dict(cfg=cfg, nodes=summ["graph_nodes"], edges=summ["graph_edges"], behaviours=summ["behaviours"],
+                              behaviours_in_tour=summ["behaviours_total"], real_blocks_mined=summ["steps"], accepted=ok, actions=summ["action_counts"])
     ctx.extra["simulation"] = dict(cfg=sim, behaviours=summ2["behaviours"], real_blocks_mined=summ2["steps"], accepted=ok2,
                                    actions=summ2["action_counts"])
     ctx.assumptions += [
